@@ -283,6 +283,10 @@ Next == \/ Submit \/ Cancel \/ Unsched \/ StepSchedParent \/ StepSchedLoop \/ St
         \/ \E c \in CtrlSet : Ctrl(c)
 Spec == Init /\ [][Next]_vars
 FairSpec == Spec /\ WF_vars(Next)
+\* C05 as liveness: under weak fairness of the whole system every run becomes quiet and every
+\* submitted task ends, and stays, in a final client state
+LiveQuiet == <>[](~ENABLED Next)
+LiveFinal == \A t \in Tasks : <>[](cs[t] \in {"DONE", "FAILED", "CANCELED"})
 
 (* ---- properties ---------------------------------------------------------------------- *)
 Quiet == ~ENABLED Next
